@@ -125,6 +125,9 @@ func probeIP(u uint32, form int) net.IP {
 	case 2:
 		b := net.IP{0x20, 0x01, 0x0d, 0xb8, 0, 0, 0, 0, 0, 0, 0, 0, 0, 0, 0, 0}
 		binary.BigEndian.PutUint32(b[12:], u)
+		if u&2 != 0 {
+			b[10], b[11] = 0xff, 0xff // sixth group ffff, but no ten zero bytes in front: still no IPv4-mapped address
+		}
 		return b
 	}
 	return u2ip(u)
